@@ -179,7 +179,7 @@ pub fn gen_case_large(t: &mut Tape, tier: Tier) -> Option<Case> {
     let kin = gen::gen_routing(t, &g, &free, &masses, tier.pick(4, 6));
     let kin2 = gen::gen_routing(t, &g, &free, &masses, tier.pick(4, 6));
     let (x, mut classes) = gen::gen_point(t, &g, &gen::MODERATE);
-    classes.push("graph:13-14-edges");
+    classes.push(if g.num_loops() >= 9 { "graph:9-11-loops" } else { "graph:13-14-edges" });
     if !crate::oracle::sym::Sym::new(&g, &kin.inflow, &kin.masses).f_nonzero() {
         return None;
     }
@@ -190,7 +190,7 @@ pub fn run(tier: Tier, seed: u64) -> i32 {
     let sp = Spec { id: "C09", rule: RULE, tape_len: 320, cases: tier.pick(60_000, 600_000), gen: gen_case, check, max_shrink_iters: 3000, shards: 16 };
     let mut stats = engine::run_spec(&sp, tier, seed);
     // rare class with its own budget: 13/14-edge graphs (2^13 / 2^14 table entries, > 12 edges)
-    let spl = Spec { id: "C09", rule: RULE, tape_len: 520, cases: tier.pick(48, 800), gen: gen_case_large, check, max_shrink_iters: 40, shards: 16 };
+    let spl = Spec { id: "C09", rule: RULE, tape_len: 520, cases: tier.pick(96, 1_200), gen: gen_case_large, check, max_shrink_iters: 40, shards: 16 };
     stats.merge(engine::run_spec(&spl, tier, seed ^ 0x1a26e));
     engine::run_regressions::<Case>("C09", check, &mut stats);
     let extra = super::fuzzrun::maybe_fuzz("C09", "sampling", tier, seed, &mut stats, serde_json::json!({}));
